@@ -4,7 +4,13 @@ set -e
 cd "$(dirname "$0")"
 export GOFLAGS=-mod=mod GOPROXY=off GOSUMDB=off GOTOOLCHAIN=local
 mkdir -p .build evidence replays
-cp /repo/go.sum harness/go.sum
+python3 -c "
+import sys; sys.argv=['check']; sys.path.insert(0,'.')
+import importlib.util, importlib.machinery
+spec = importlib.util.spec_from_loader('check', importlib.machinery.SourceFileLoader('check', './check')); m = importlib.util.module_from_spec(spec); spec.loader.exec_module(m)
+import shutil, os
+shutil.copyfile('/repo/go.sum', 'harness/go.sum'); m.write_harness_gomod('harness')
+"
 (cd harness && go build -tags verif -o ../.build/harness .)
 ./.build/harness genconst coq/Generated/Constants.v
 (cd coq && coq_makefile -f _CoqProject -o Makefile >/dev/null && timeout 3000 make -j16 >/dev/null)
